@@ -206,54 +206,160 @@ func numSortOf(a, b *Term) Sort {
 	return a.Sort
 }
 
+// ---- linear normal form for +,-,neg,*const ----
+
+type linForm struct {
+	atoms []*Term
+	coefs []*big.Rat
+	k     *big.Rat
+}
+
+func (l *linForm) add(t *Term, c *big.Rat) {
+	if c.Sign() == 0 {
+		return
+	}
+	for i, a := range l.atoms {
+		if a == t {
+			l.coefs[i] = new(big.Rat).Add(l.coefs[i], c)
+			return
+		}
+	}
+	l.atoms = append(l.atoms, t)
+	l.coefs = append(l.coefs, new(big.Rat).Set(c))
+}
+
+func (l *linForm) accumulate(t *Term, c *big.Rat, depth int) {
+	if t.Op == "c" {
+		l.k.Add(l.k, new(big.Rat).Mul(t.Rat, c))
+		return
+	}
+	if depth < 24 {
+		switch t.Op {
+		case "+":
+			for _, a := range t.Args {
+				l.accumulate(a, c, depth+1)
+			}
+			return
+		case "-":
+			l.accumulate(t.Args[0], c, depth+1)
+			l.accumulate(t.Args[1], new(big.Rat).Neg(c), depth+1)
+			return
+		case "neg":
+			l.accumulate(t.Args[0], new(big.Rat).Neg(c), depth+1)
+			return
+		case "*":
+			if t.Args[0].IsConst() {
+				l.accumulate(t.Args[1], new(big.Rat).Mul(c, t.Args[0].Rat), depth+1)
+				return
+			}
+			if t.Args[1].IsConst() {
+				l.accumulate(t.Args[0], new(big.Rat).Mul(c, t.Args[1].Rat), depth+1)
+				return
+			}
+		}
+	}
+	l.add(t, c)
+}
+
+func rscale(c, lo, hi *big.Rat) (*big.Rat, *big.Rat) {
+	var a, b *big.Rat
+	if lo != nil {
+		a = new(big.Rat).Mul(c, lo)
+	}
+	if hi != nil {
+		b = new(big.Rat).Mul(c, hi)
+	}
+	if c.Sign() < 0 {
+		return b, a
+	}
+	return a, b
+}
+
+// build constructs the canonical term of a linear form.
+func (l *linForm) build(sort Sort) *Term {
+	// drop zero coefficients, sort by atom id
+	type pair struct {
+		t *Term
+		c *big.Rat
+	}
+	var ps []pair
+	for i, a := range l.atoms {
+		if l.coefs[i].Sign() != 0 {
+			ps = append(ps, pair{a, l.coefs[i]})
+		}
+	}
+	if len(ps) == 0 {
+		return RatC(sort, l.k)
+	}
+	for i := 1; i < len(ps); i++ {
+		for j := i; j > 0 && ps[j-1].t.ID > ps[j].t.ID; j-- {
+			ps[j-1], ps[j] = ps[j], ps[j-1]
+		}
+	}
+	one := big.NewRat(1, 1)
+	args := make([]*Term, 0, len(ps)+1)
+	lo, hi := new(big.Rat).Set(l.k), new(big.Rat).Set(l.k)
+	isInt := l.k.IsInt()
+	for _, p := range ps {
+		var m *Term
+		if p.c.Cmp(one) == 0 {
+			m = p.t
+		} else {
+			m = mk(sort, "*", RatC(sort, p.c), p.t)
+			if m.Lo == nil && m.Hi == nil {
+				m.Lo, m.Hi = rscale(p.c, p.t.Lo, p.t.Hi)
+				m.IsIntReal = p.t.IsIntReal && p.c.IsInt()
+			}
+		}
+		args = append(args, m)
+		lo, hi = radd(lo, m.Lo), radd(hi, m.Hi)
+		isInt = isInt && (m.IsIntReal || sort == SInt)
+	}
+	if len(args) == 1 && l.k.Sign() == 0 {
+		return args[0]
+	}
+	if l.k.Sign() != 0 {
+		args = append(args, RatC(sort, l.k))
+	}
+	t := mk(sort, "+", args...)
+	if t.Lo == nil && t.Hi == nil {
+		t.Lo, t.Hi = lo, hi
+		t.IsIntReal = isInt && sort == SReal
+	}
+	return t
+}
+
+func linCombine(sort Sort, a *Term, ca *big.Rat, b *Term, cb *big.Rat) *Term {
+	l := &linForm{k: new(big.Rat)}
+	l.accumulate(a, ca, 0)
+	if b != nil {
+		l.accumulate(b, cb, 0)
+	}
+	return l.build(sort)
+}
+
+var ratOne = big.NewRat(1, 1)
+var ratMinusOne = big.NewRat(-1, 1)
+
 func Add(a, b *Term) *Term {
 	s := numSortOf(a, b)
 	if a.IsConst() && b.IsConst() {
 		return RatC(s, new(big.Rat).Add(a.Rat, b.Rat))
 	}
-	if a.IsConst() && a.Rat.Sign() == 0 {
-		return b
-	}
-	if b.IsConst() && b.Rat.Sign() == 0 {
-		return a
-	}
-	// (x + c1) + c2 -> x + (c1+c2)
-	if b.IsConst() && a.Op == "+" && len(a.Args) == 2 && a.Args[1].IsConst() {
-		return Add(a.Args[0], RatC(s, new(big.Rat).Add(a.Args[1].Rat, b.Rat)))
-	}
-	if a.IsConst() {
-		a, b = b, a
-	}
-	t := mk(s, "+", a, b)
-	if t.Lo == nil && t.Hi == nil {
-		t.Lo, t.Hi = radd(a.Lo, b.Lo), radd(a.Hi, b.Hi)
-		t.IsIntReal = a.IsIntReal && b.IsIntReal
-	}
-	return t
+	return linCombine(s, a, ratOne, b, ratOne)
 }
 
 func Neg(a *Term) *Term {
 	if a.IsConst() {
 		return RatC(a.Sort, new(big.Rat).Neg(a.Rat))
 	}
-	if a.Op == "neg" {
-		return a.Args[0]
-	}
-	t := mk(a.Sort, "neg", a)
-	if t.Lo == nil && t.Hi == nil {
-		t.Lo, t.Hi = rneg(a.Hi), rneg(a.Lo)
-		t.IsIntReal = a.IsIntReal
-	}
-	return t
+	return linCombine(a.Sort, a, ratMinusOne, nil, nil)
 }
 
 func Sub(a, b *Term) *Term {
 	s := numSortOf(a, b)
 	if a.IsConst() && b.IsConst() {
 		return RatC(s, new(big.Rat).Sub(a.Rat, b.Rat))
-	}
-	if b.IsConst() {
-		return Add(a, RatC(s, new(big.Rat).Neg(b.Rat)))
 	}
 	if a == b {
 		return RatC(s, new(big.Rat))
@@ -262,12 +368,7 @@ func Sub(a, b *Term) *Term {
 	if b.Op == "mod" && b.Args[0] == a && b.Args[1].IsConst() {
 		return Mul(b.Args[1], EDiv(a, b.Args[1]))
 	}
-	t := mk(s, "-", a, b)
-	if t.Lo == nil && t.Hi == nil {
-		t.Lo, t.Hi = rsub(a.Lo, b.Hi), rsub(a.Hi, b.Lo)
-		t.IsIntReal = a.IsIntReal && b.IsIntReal
-	}
-	return t
+	return linCombine(s, a, ratOne, b, ratMinusOne)
 }
 
 func mulBounds(a, b *Term) (lo, hi *big.Rat) {
@@ -307,6 +408,7 @@ func Mul(a, b *Term) *Term {
 		if a.Rat.Cmp(big.NewRat(1, 1)) == 0 {
 			return b
 		}
+		return linCombine(s, b, a.Rat, nil, nil)
 	}
 	t := mk(s, "*", a, b)
 	if t.Lo == nil && t.Hi == nil {
